@@ -11,6 +11,7 @@ B-20 (bounded stand-in; the deductive obligations of DESIGN §5 C20 are not gene
   (C) the recorded findings are re-demonstrated by their specific histories; each is matched by key
       in KNOWN_FINDINGS (KNOWN-FINDING line, exit 0) - if one stops failing it is simply not printed.
 """
+import io
 import random
 import re
 
@@ -171,8 +172,10 @@ def run_history(real, rng, n_ops, t):
                     nd, nm_ = getattr(d, op)(), getattr(m, op)()
                     ops.append([i, op])
                 elif op.startswith("choose_packages"):
-                    sel = [p for p in rng.sample(PKGS, 2) if p in m.db]
+                    sel = rng.sample(PKGS + ["nope", "t"], 2)     # also names the collection does not contain (they are ignored)
                     cp = op.endswith("_copy")
+                    if cp:
+                        sel = [p for p in sel if p in m.db]       # the copying variant raises KeyError for unknown names
                     nd, nm_ = getattr(d, op)(list(sel)), m.choose_packages(sel, copy=cp)
                     ops.append([i, op, sel])
                 elif op.startswith("filter_packages_tags"):
@@ -209,6 +212,27 @@ def run_history(real, rng, n_ops, t):
                         return t.failed("packages_of_tag / card / has_tag disagree with the relation", operations=ops, tag=tg)
                 if dd.package_count() != len(mm.db) or dd.tag_count() != len(mm.rdb):
                     return t.failed("package_count / tag_count disagree", operations=ops)
+                # the remaining query methods, and a pickle round trip, against the same relation
+                pk = [p for p in PKGS if p in mm.db]
+                tg = [x for x in mm.rdb]
+                if any(dd.has_package(p) != (p in mm.db) for p in PKGS + TAGS) or \
+                        set(dd.iter_packages()) != set(mm.db) or set(dd.iter_tags()) != set(mm.rdb) or \
+                        {(p, x) for p, ts in dd.iter_packages_tags() for x in ts} != rel or \
+                        {(p, x) for x, ps in dd.iter_tags_packages() for p in ps} != rel:
+                    return t.failed("has_package / iter_* disagree with the relation", operations=ops)
+                if pk and dd.tags_of_packages(pk) != {x for (_p, x) in rel}:
+                    return t.failed("tags_of_packages disagrees with the relation", operations=ops)
+                if tg and dd.packages_of_tags(tg) != {p for (p, _x) in rel}:
+                    return t.failed("packages_of_tags disagrees with the relation", operations=ops)
+                if tg and dd.discriminance(tg[0]) != min(len(mm.rdb[tg[0]]), len(mm.db) - len(mm.rdb[tg[0]])):
+                    return t.failed("discriminance disagrees with the relation", operations=ops, tag=tg[0])
+                buf = io.BytesIO()
+                dd.qwrite(buf)
+                buf.seek(0)
+                back = real.DB()
+                back.qread(buf)
+                if state(back) != state(mm):
+                    return t.failed("qwrite / qread does not reproduce the collection", operations=ops)
         t.case(key=tuple(map(str, ops)) if len(ops) >= 2 else None, sample=ops if len(ops) >= 4 else None)
     return False
 
